@@ -329,6 +329,10 @@ class SymSrpServer:
     def session_key(self):
         return self.be.W.term(("srpK",) + self._ctx(), 64)
 
+    def next_exchange(self):
+        """the same accessory (same code, salt and verifier) in the controller's next exchange"""
+        return SymSrpServer(self.be, self.code, n=self.n + 1)
+
 
 class RealBackend:
     """accessory + adversary with real cryptography (replay on the unmodified library)"""
@@ -406,6 +410,19 @@ class RealSrpServer:
         self.srv.set_client_public_key(bytes(client_A))
         ok = self.srv.verify_clients_proof_bytes(bytes(client_M1))
         return ok, self.srv.get_proof_bytes(bytes(client_M1))
+
+    def next_exchange(self):
+        """the same accessory (same setup code, persisted salt and verifier) in a new exchange: a fresh server object, because
+        SrpServer caches per-exchange values"""
+        from aiohomekit.crypto.srp import HK_KEY_LENGTH, pad_left, to_byte_array
+        new = RealSrpServer(self.code)
+        s = new.srv
+        s.salt_b, s.salt = self.srv.salt_b, self.srv.salt
+        s.verifier = s._get_verifier()
+        s.B = (s._calculate_k() * s.verifier + pow(s.g, s.b, s.n)) % s.n
+        s.B_b = pad_left(to_byte_array(s.B), HK_KEY_LENGTH)
+        new.salt, new.B = s.salt_b, s.get_public_key_bytes()
+        return new
 
     def session_key(self):
         return self.srv.get_session_key_bytes()
